@@ -97,9 +97,6 @@ func slotArgAt(cs callSite, s ctxSlot) (v ssa.Value, forwarded bool) {
 	// the caller's own parameter object handed on
 	for _, q := range cs.Caller.Params {
 		if isParamOrSpill(arg, q) && types.Identical(q.Type(), arg.Type()) {
-			if cslot, ok := slotOf(cs.Caller, func(t types.Type) bool { return false }); ok {
-				_ = cslot
-			}
 			return slotValueIn(cs.Caller, ctxSlot{paramIndex(cs.Caller, q), s.Field}), true
 		}
 	}
